@@ -898,7 +898,8 @@ pub fn term_line(input: &[u8], o: Opts) -> String {
                 Err(_) => format!("{}trap", head),
             }
         }
-        _ => format!("{}{}", head, outcome_short(&r)),
+        // no symbol to render: not a case of a rendering property (the build outcome is C05 / C10's business)
+        _ => format!("{}nobuild {}", head, outcome_short(&r)),
     }
 }
 
@@ -941,7 +942,7 @@ pub fn svg_line(input: &[u8], o: Opts, ops: &[Op]) -> String {
                 Err(e) => format!("{}trap {}", head, panic_msg(e)),
             }
         }
-        _ => format!("{}{}", head, outcome_short(&r)),
+        _ => format!("{}nobuild {}", head, outcome_short(&r)),
     }
 }
 
